@@ -186,13 +186,13 @@ Section Entries.
   (* the background given by the caller is the one used for rescaling, the base reaches
      to_scoring_with_base unchanged; the matrix is rescaled exactly when the backgrounds differ *)
   Theorem py_log_odds_eq_core : forall a w bg base b g,
-    base_arg base = Value b -> glue_background K a bg = Value g ->
+    base_arg base = Value b -> base_invalid b = false -> glue_background K a bg = Value g ->
     glue_log_odds K a w bg base =
       (w' <~ (if f32s_eqb g (c_w_bg K w) then Value w else liftp (c_rescale K w g)) ;;
        s <~ liftp (c_to_scoring_base K w' b) ;; Value (OScoring _ _ _ _ _ a s)).
   Proof.
-    intros a w bg base b g Hb Hg. unfold glue_log_odds. fold (base_arg base). rewrite Hb. cbn [obind].
-    rewrite Hg. reflexivity.
+    intros a w bg base b g Hb Hv Hg. unfold glue_log_odds. fold (base_arg base). rewrite Hb. cbn [obind].
+    rewrite Hv, Hg. reflexivity.
   Qed.
 
   Theorem py_background_arg : forall a,
@@ -213,15 +213,18 @@ Section Entries.
 
   (* configure the sequence for this motif, then score it; alphabet mismatch is a ValueError *)
   Theorem py_calculate_eq_core : forall a s q q',
-    c_configure K q s = COk q' ->
+    sm_empty (c_sm_cells K s) = false -> c_configure K q s = COk q' ->
     glue_calculate K a s a q = (sc <~ liftp (c_score K s q') ;; Value (OScores _ _ _ _ _ sc), q').
   Proof.
-    intros a s q q' H. unfold glue_calculate. destruct a; simpl; rewrite H; reflexivity.
+    intros a s q q' He H. unfold glue_calculate. rewrite He. destruct a; simpl; rewrite H; reflexivity.
   Qed.
 
   Theorem py_calculate_mismatch : forall a aq s q,
     a <> aq -> glue_calculate K a s aq q = (PyExc ValueError, q).
-  Proof. intros a aq s q H. unfold glue_calculate. destruct a, aq; try congruence; reflexivity. Qed.
+  Proof.
+    intros a aq s q H. unfold glue_calculate. destruct (sm_empty _); [reflexivity|].
+    destruct a, aq; try congruence; reflexivity.
+  Qed.
 
   (* all orders in which one striped sequence object is reused (calculate and scan, motifs of
      any widths and alphabets): every result is the one obtained on the untouched sequence *)
@@ -250,34 +253,59 @@ Section Entries.
   (* ---------------------------------------------------------------- pvalue / score *)
 
   (* "meme" (the default) goes to the score distribution with the score rounded to f32,
-     "tfmpvalue" to TFM-PVALUE with the f64 score, anything else is a ValueError *)
+     "tfmpvalue" to TFM-PVALUE with the f64 score, anything else is a ValueError; the data are
+     validated first: no NaN score (no infinite one for TFM-PVALUE), an ordered non-empty matrix
+     without +inf for the distribution, a non-empty matrix with finite scores for TFM-PVALUE *)
   Theorem py_pvalue_eq_core : forall s x v,
-    extract_f64 x = Value v ->
-    glue_pvalue K s x None = (p <~ liftp (c_dist_pvalue K s (f64_to_f32_bits v)) ;; Value (RF64 _ _ _ _ _ p)) /\
+    extract_f64 x = Value v -> f64_is_nan v = false ->
+    (ordered_ok true (c_sm_cells K s) = true ->
+     glue_pvalue K s x None = (p <~ liftp (c_dist_pvalue K s (f64_to_f32_bits v)) ;; Value (RF64 _ _ _ _ _ p))) /\
     glue_pvalue K s x (Some (PStr str_meme)) = glue_pvalue K s x None /\
-    glue_pvalue K s x (Some (PStr str_tfmpvalue)) = (p <~ liftp (c_tfm_pvalue K s v) ;; Value (RF64 _ _ _ _ _ p)) /\
+    (f64_is_inf v = false -> finite_ok (c_sm_cells K s) = true ->
+     glue_pvalue K s x (Some (PStr str_tfmpvalue)) = (p <~ liftp (c_tfm_pvalue K s v) ;; Value (RF64 _ _ _ _ _ p))) /\
     (forall m, m <> str_meme -> m <> str_tfmpvalue -> existsb is_surrogate m = false ->
                glue_pvalue K s x (Some (PStr m)) = PyExc ValueError).
   Proof.
-    intros s x v H. unfold glue_pvalue. rewrite H. cbn [obind]. repeat split; try reflexivity.
-    intros m H1 H2 H3. unfold method_arg, extract_str. rewrite H3. cbn [obind].
-    destruct (zlist_eqb m str_tfmpvalue) eqn:E1; [apply zlist_eqb_eq in E1; congruence|].
-    destruct (zlist_eqb m str_meme) eqn:E2; [apply zlist_eqb_eq in E2; congruence|]. reflexivity.
+    intros s x v H Hn. unfold glue_pvalue. rewrite H. cbn [obind]. repeat split.
+    - intros Ho. cbn [method_arg obind]. rewrite Hn.
+      replace (zlist_eqb str_meme str_tfmpvalue) with false by reflexivity.
+      rewrite andb_false_r. cbn [orb]. replace (zlist_eqb str_meme str_meme) with true by reflexivity.
+      rewrite Ho. reflexivity.
+    - intros Hi Hf. cbn [method_arg extract_str]. replace (existsb is_surrogate str_tfmpvalue) with false by reflexivity.
+      cbn [obind]. rewrite Hn, Hi. cbn [orb andb].
+      replace (zlist_eqb str_tfmpvalue str_tfmpvalue) with true by reflexivity. rewrite Hf. reflexivity.
+    - intros m H1 H2 H3. unfold method_arg, extract_str. rewrite H3. cbn [obind].
+      destruct (zlist_eqb m str_tfmpvalue) eqn:E1; [apply zlist_eqb_eq in E1; congruence|].
+      destruct (zlist_eqb m str_meme) eqn:E2; [apply zlist_eqb_eq in E2; congruence|].
+      destruct (f64_is_nan v || _); reflexivity.
   Qed.
 
   Theorem py_score_eq_core : forall s x v,
-    extract_f64 x = Value v ->
-    glue_score K s x None = (p <~ liftp (c_dist_score K s v) ;; Value (RF64 _ _ _ _ _ (f32_to_f64_bits p))) /\
+    extract_f64 x = Value v -> pvalue_in_range v = true ->
+    (ordered_ok true (c_sm_cells K s) = true ->
+     glue_score K s x None = (p <~ liftp (c_dist_score K s v) ;; Value (RF64 _ _ _ _ _ (f32_to_f64_bits p)))) /\
     glue_score K s x (Some (PStr str_meme)) = glue_score K s x None /\
-    glue_score K s x (Some (PStr str_tfmpvalue)) = (p <~ liftp (c_tfm_score K s v) ;; Value (RF64 _ _ _ _ _ p)) /\
+    (finite_ok (c_sm_cells K s) = true ->
+     glue_score K s x (Some (PStr str_tfmpvalue)) = (p <~ liftp (c_tfm_score K s v) ;; Value (RF64 _ _ _ _ _ p))) /\
     (forall m, m <> str_meme -> m <> str_tfmpvalue -> existsb is_surrogate m = false ->
                glue_score K s x (Some (PStr m)) = PyExc ValueError).
   Proof.
-    intros s x v H. unfold glue_score. rewrite H. cbn [obind]. repeat split; try reflexivity.
-    intros m H1 H2 H3. unfold method_arg, extract_str. rewrite H3. cbn [obind].
-    destruct (zlist_eqb m str_tfmpvalue) eqn:E1; [apply zlist_eqb_eq in E1; congruence|].
-    destruct (zlist_eqb m str_meme) eqn:E2; [apply zlist_eqb_eq in E2; congruence|]. reflexivity.
+    intros s x v H Hr. unfold glue_score. rewrite H. cbn [obind]. repeat split.
+    - intros Ho. cbn [method_arg obind]. rewrite Hr. cbn [negb].
+      replace (zlist_eqb str_meme str_tfmpvalue) with false by reflexivity.
+      replace (zlist_eqb str_meme str_meme) with true by reflexivity. rewrite Ho. reflexivity.
+    - intros Hf. cbn [method_arg extract_str]. replace (existsb is_surrogate str_tfmpvalue) with false by reflexivity.
+      cbn [obind]. rewrite Hr. cbn [negb].
+      replace (zlist_eqb str_tfmpvalue str_tfmpvalue) with true by reflexivity. rewrite Hf. reflexivity.
+    - intros m H1 H2 H3. unfold method_arg, extract_str. rewrite H3. cbn [obind]. rewrite Hr. cbn [negb].
+      destruct (zlist_eqb m str_tfmpvalue) eqn:E1; [apply zlist_eqb_eq in E1; congruence|].
+      destruct (zlist_eqb m str_meme) eqn:E2; [apply zlist_eqb_eq in E2; congruence|]. reflexivity.
   Qed.
+
+  Theorem py_max_score_eq_core : forall s,
+    ordered_ok false (c_sm_cells K s) = true ->
+    glue_max_score K s = (m <~ liftp (c_max_score K s) ;; Value (RF32 _ _ _ _ _ m)).
+  Proof. intros s H. unfold glue_max_score. rewrite H. reflexivity. Qed.
 
   (* ---------------------------------------------------------------- reverse complement *)
 
@@ -305,11 +333,18 @@ Section Entries.
 
   Theorem py_scan_eq_core : forall s q q' t b,
     c_configure K q s = COk q' ->
-    glue_scan K Dna s Dna q t b = (h <~ liftp (c_scan K s q' t b) ;; Value (OScanner _ _ _ _ _ h), q') /\
+    (ordered_ok false (c_sm_cells K s) = true -> sm_empty (c_sm_cells K s) = false ->
+     glue_scan K Dna s Dna q t b = (h <~ liftp (c_scan K s q' t b) ;; Value (OScanner _ _ _ _ _ h), q')) /\
     glue_scan K Protein s Protein q t b = (PyExc ValueError, q) /\
     glue_scan K Dna s Protein q t b = (PyExc ValueError, q) /\
     glue_scan K Protein s Dna q t b = (PyExc ValueError, q).
-  Proof. intros s q q' t b H. unfold glue_scan. rewrite H. repeat split; reflexivity. Qed.
+  Proof.
+    intros s q q' t b H. unfold glue_scan. repeat split.
+    - intros Ho He. rewrite Ho, He. cbn [negb]. rewrite H. reflexivity.
+    - destruct (negb _); reflexivity.
+    - destruct (negb _); reflexivity.
+    - destruct (negb _); reflexivity.
+  Qed.
 
   (* however the caller chunks the iteration (k hits at a time, then the rest), the hits
      handed out are the core scanner's hits, in its order, none lost, none repeated *)
@@ -397,6 +432,8 @@ Section Entries.
     (* and an argument error decides the outcome of the call before the core is consulted *)
     (forall a c pc e, glue_pseudo a pc = PyExc e -> glue_normalize K a c pc = PyExc e) /\
     (forall a w bg base e, base_arg base = PyExc e -> glue_log_odds K a w bg base = PyExc e) /\
+    (forall a w bg base b, base_arg base = Value b -> base_invalid b = true ->
+                           glue_log_odds K a w bg base = PyExc ValueError) /\
     (forall s x m e, extract_f64 x = PyExc e -> glue_pvalue K s x m = PyExc e /\ glue_score K s x m = PyExc e) /\
     (forall sc t e, extract_f32 t = PyExc e -> glue_threshold K sc t = PyExc e).
   Proof.
@@ -407,9 +444,54 @@ Section Entries.
     - intros; apply cols_loop_np; assumption.
     - intros a c pc e H. unfold glue_normalize. rewrite H. reflexivity.
     - intros a w bg base e H. unfold glue_log_odds. fold (base_arg base). rewrite H. reflexivity.
+    - intros a w bg base b H Hb. unfold glue_log_odds. fold (base_arg base). rewrite H. cbn [obind]. rewrite Hb. reflexivity.
     - unfold glue_pvalue. rewrite H. reflexivity.
     - unfold glue_score. rewrite H. reflexivity.
     - intros sc t e H. unfold glue_threshold. rewrite H. reflexivity.
+  Qed.
+
+  (* data on which the core operation is undefined are refused with a ValueError before the core
+     is consulted (repairs of F25): an empty motif in calculate / scan / p-values, scores that
+     cannot be ordered (NaN) in max_score / scan, a matrix without score distribution (NaN, +inf,
+     empty) with the "meme" method, non-finite scores with "tfmpvalue", a NaN score, a p-value
+     outside [0, 1] *)
+  Theorem py_degenerate_data_raise : forall s,
+    (sm_empty (c_sm_cells K s) = true ->
+       (forall a aq q, glue_calculate K a s aq q = (PyExc ValueError, q)) /\
+       (forall a aq q t b, glue_scan K a s aq q t b = (PyExc ValueError, q))) /\
+    (cells_nan (c_sm_cells K s) = true ->
+       glue_max_score K s = PyExc ValueError /\
+       (forall a aq q t b, glue_scan K a s aq q t b = (PyExc ValueError, q))) /\
+    (forall x m v mm, extract_f64 x = Value v -> method_arg m = Value mm ->
+       (f64_is_nan v = true -> glue_pvalue K s x m = PyExc ValueError) /\
+       (pvalue_in_range v = false -> glue_score K s x m = PyExc ValueError) /\
+       (mm = str_tfmpvalue -> finite_ok (c_sm_cells K s) = false ->
+          glue_pvalue K s x m = PyExc ValueError /\ glue_score K s x m = PyExc ValueError) /\
+       (mm = str_meme -> ordered_ok true (c_sm_cells K s) = false ->
+          glue_pvalue K s x m = PyExc ValueError /\ glue_score K s x m = PyExc ValueError)).
+  Proof.
+    intros s. repeat split.
+    - intros a aq q. unfold glue_calculate. rewrite H. reflexivity.
+    - intros a aq q t b. unfold glue_scan. rewrite H. destruct (negb _); [reflexivity|].
+      destruct a, aq; reflexivity.
+    - unfold glue_max_score, ordered_ok. rewrite H. reflexivity.
+    - intros a aq q t b. unfold glue_scan, ordered_ok. rewrite H. reflexivity.
+    - intros Hn. unfold glue_pvalue. rewrite H, H0. cbn [obind]. rewrite Hn. reflexivity.
+    - intros Hr. unfold glue_score. rewrite H, H0. cbn [obind]. rewrite Hr. reflexivity.
+    - subst mm. unfold glue_pvalue. rewrite H, H0. cbn [obind].
+      destruct (f64_is_nan v || _); [reflexivity|].
+      replace (zlist_eqb str_tfmpvalue str_tfmpvalue) with true by reflexivity. rewrite H2. reflexivity.
+    - subst mm. unfold glue_score. rewrite H, H0. cbn [obind].
+      destruct (negb (pvalue_in_range v)); [reflexivity|].
+      replace (zlist_eqb str_tfmpvalue str_tfmpvalue) with true by reflexivity. rewrite H2. reflexivity.
+    - subst mm. unfold glue_pvalue. rewrite H, H0. cbn [obind].
+      destruct (f64_is_nan v || _); [reflexivity|].
+      replace (zlist_eqb str_meme str_tfmpvalue) with false by reflexivity.
+      replace (zlist_eqb str_meme str_meme) with true by reflexivity. rewrite H2. reflexivity.
+    - subst mm. unfold glue_score. rewrite H, H0. cbn [obind].
+      destruct (negb (pvalue_in_range v)); [reflexivity|].
+      replace (zlist_eqb str_meme str_tfmpvalue) with false by reflexivity.
+      replace (zlist_eqb str_meme str_meme) with true by reflexivity. rewrite H2. reflexivity.
   Qed.
 
   (* no step of any history ends in a PanicException unless the core library panics (or an
@@ -583,6 +665,7 @@ Definition toy : core Z Z Z Z (list Z * Z) Z := {|
   c_scoring_new := fun _ _ m => COk (Z.of_nat (length m));
   c_revcomp := fun s => COk s;
   c_max_score := fun s => COk s;
+  c_sm_cells := fun s => repeat [0; 0; 0; 0; 4286578688] (Z.to_nat s);
   c_stripe := fun _ s => COk (s, 0);
   c_configure := fun q s => COk (fst q, Z.max (snd q) (s - 1));
   c_score := fun s q => if s - 1 <=? snd q then COk (Z.of_nat (length (fst q)) - s + 1) else CPanic;
